@@ -505,7 +505,9 @@ def M_push_cursor(s, ch):
             s1 = M_scroll(s, False) if y == s.scrollregion_end else s
             ny = ite(y == s.scrollregion_end, y, y + 1)
             s2 = M_push_char(M_set_cursor(s1, 0, ny), ch, 1, ny)
-            return upd(s2, is_rotten_cursor=False)
+            # (on a one-column screen the cell just written is again the last column: the wrap stays pending;
+            #  the code cleared the flag there before fix: commit 9eeb5bc and lost every second character)
+            return upd(s2, is_rotten_cursor=(s.width <= 1))
         return upd(M_push_char(s, ch, x + 1, y), is_rotten_cursor=False)
     return M_push_char(upd(s, is_rotten_cursor=False), ch, ite(x + 1 < s.width, x + 1, x), y)
 
@@ -565,9 +567,16 @@ class constrain_coords:
     self_shape = TERM
     params = dict(x=Int, y=Int, ignore_scrolling=Bool)
     result = Tup(Int, Int)
-    invariant = staticmethod(GI)
+    # constrain_coords is also called while GI is being re-established (csi_set_scroll assigns the two margins one
+    # after the other): it is verified under exactly what it needs -- a positive size, and valid margins only when it
+    # looks at them -- and its callers owe just that (call-inv / call-pre obligations at every call site)
+    invariant = staticmethod(lambda s: both(s.width >= 1, s.height >= 1))
     replayable = False
     pure_spec = staticmethod(lambda old, a: constrained(old, a.x, a.y, a.ignore_scrolling))
+
+    def requires(s, a):
+        return implies(both(s.modes.constrain_scrolling, neg(a.ignore_scrolling)),
+                       both(0 <= s.scrollregion_start, s.scrollregion_start <= s.scrollregion_end, s.scrollregion_end <= s.height - 1))
 
     def ensures(old, s, a, result):
         x, y = result
@@ -1201,7 +1210,7 @@ class push_cursor:
         if not settled(old):
             return
         wraps = both(old.modes.autowrap, x0 + 1 >= w, old.is_rotten_cursor)
-        yield "wrap-pending-exactly-after-writing-the-last-column", s.is_rotten_cursor == both(old.modes.autowrap, x0 + 1 >= w, neg(old.is_rotten_cursor))
+        yield "wrap-pending-exactly-after-writing-the-last-column", s.is_rotten_cursor == both(old.modes.autowrap, x0 + 1 >= w, either(neg(old.is_rotten_cursor), w <= 1))
         yield "advances-one-column-when-there-is-room", implies(x0 + 1 < w, both(s.term_cursor[0] == x0 + 1, implies(neg(old.modes.constrain_scrolling), s.term_cursor[1] == y0)))
         yield "stays-in-the-last-column-until-the-next-character", implies(both(x0 + 1 >= w, neg(wraps)), s.term_cursor[0] == x0)
         if wraps:
